@@ -16,7 +16,7 @@ func init() {
 		"Decides acquire/release pairing on all paths — the structural core of 'no per-seed leak': every response obtained in the fetch closure is drained-and-closed or handed to ProcessBody (which defers Body.Close) (R-RESP-CLOSE); every spooled temp file made in ProcessBody is closed on each error path or becomes the URL's body, bodies have that single producer, and closeBodies runs over the whole tree on every pass of the postprocessor (R-SPOOL-CLOSE); every goroutine started in per-seed code is joined by its spawner and every ticker stopped (R-GO-JOIN); the limiter table only grows past a len≥max test that evicts, and eviction always removes an entry when there is one (R-BUCKET-BOUND); the reactor's entry/token pairing (R-REACT-INSERT/RELEASE); limiter state under its lock (R-TB-LOCK).",
 		"Not decided: goroutine and file-descriptor counts as such (runtime quantities), temp-file deletion inside spooledtempfile.Close, leaks inside third-party modules.",
 	}
-	register(&core.Rule{ID: "R-RESP-CLOSE", Props: []string{"C16"}, Doc: "fetch closure: from a successful client.Do every path to the next attempt or to the closure's exit closes resp.Body (after draining it) or hands the response to ProcessBody", Run: ruleRespClose})
+	register(&core.Rule{ID: "R-RESP-CLOSE", Props: []string{"C16", "C02", "C03"}, Doc: "fetch closure: from a successful client.Do every path to the next attempt or to the closure's exit closes resp.Body (after draining it) or hands the response to ProcessBody", Run: ruleRespClose})
 	register(&core.Rule{ID: "R-SPOOL-CLOSE", Props: []string{"C16"}, Doc: "ProcessBody: each NewSpooledTempFile result is Close()d on every path that does not store it with SetBody; SetBody(non-nil) has that one call site; the postprocessor worker calls closeBodies(seed) on every non-stop path before forwarding; closeBody closes and clears; Traverse visits every node", Run: ruleSpoolClose})
 	register(&core.Rule{ID: "R-GO-JOIN", Props: []string{"C16"}, Doc: "every go statement in code that runs per seed/batch is preceded by WaitGroup.Add, its target signals Done on every exit, and the spawner waits before returning; every time.NewTicker has a deferred Stop", Run: ruleGoJoin})
 	register(&core.Rule{ID: "R-BUCKET-BOUND", Props: []string{"C16"}, Doc: "the only insertion into BucketManager.buckets passes the len(buckets) >= maxBuckets test and evicts on its true side; evictLFU considers every bucket (no filter besides the usage comparison) and deletes the chosen key whenever one was chosen", Run: ruleBucketBound})
@@ -99,7 +99,12 @@ func ruleRespClose(r *core.Reporter) {
 		nClose++
 		drain := func(x ssa.Instruction) bool {
 			c, ok := x.(*ssa.Call)
-			return ok && ir.IsCallTo(c, "io.Copy", "io.ReadAll", "io.CopyN") && fromResp(ir.Strip(c.Call.Args[len(c.Call.Args)-1]))
+			// to EOF: a bounded read (CopyN, LimitReader) leaves the rest unread — the connection is dropped mid-body
+			// and the WARC writer, which records what was read off the wire, discards the truncated exchange
+			if !ok || !ir.IsCallTo(c, "io.Copy", "io.ReadAll") {
+				return false
+			}
+			return fromResp(ir.Strip(c.Call.Args[len(c.Call.Args)-1]))
 		}
 		if ir.Reach([]ir.Pt{*start}, ir.Opts{Stop: drain}).Reached[in] {
 			undrained++
@@ -108,7 +113,7 @@ func ruleRespClose(r *core.Reporter) {
 	if nClose > 0 && undrained == 0 {
 		r.Held(name+"/drain-before-close", nClose, "%d explicit Close site(s), each after draining the body", nClose)
 	} else if undrained > 0 {
-		r.Violated(name+"/drain-before-close", p.InstrPos(do), "a response body is closed without being drained first")
+		r.Violated(name+"/drain-before-close", p.InstrPos(do), "a response body is closed without having been read to EOF first (no drain, or a bounded one): the exchange recorded for the WARC is truncated and dropped, and the writer's connection goroutine is not released")
 	}
 	// the response handed over is this Do's response: SetResponse(resp) precedes ProcessBody
 	okSet := false
